@@ -219,6 +219,13 @@ def size_sweeps(name, L):
                         fill.append(m); want.append((0x100 + k, bytes((k + i) & 0xFF for i in range(fl)))); room -= len(m); k += 1
                     if room == 0:
                         items.append(('%s 1500-byte datagram, last message payload %d' % (cf, ln), control(cf, b''.join(fill) + last, udp), want + [(0x321, bytes(range(1, ln + 1)))]))
+                # as many of the smallest messages (no payload) as a 1500-byte datagram holds, and a few less
+                maxk = (1500 - hl) // 16
+                for k in sorted({maxk, maxk - 1, maxk - 2, 92, 91, 64, 65}):
+                    if k < 1 or hl + 16 * k > 1500:
+                        continue
+                    msgs = [can_msg(0x200 + (i & 0xFF), b'', fdf=fd) for i in range(k)]
+                    items.append(('%s %d messages without payload' % (cf, k), control(cf, b''.join(msgs), udp), [(0x200 + (i & 0xFF), b'') for i in range(k)]))
                 # consistent messages whose payload is longer than any CAN frame: nothing may be written for them
                 for ln in list(range((64 if fd else 8) + 1, 300)) + [511, 512, 767, 768, 1023, 1024, 1279, 1280]:
                     if hl + 16 + ln + 3 > 1500:
